@@ -1,0 +1,14 @@
+//go:build !verif
+
+package wasm
+
+// Verification hooks (see verif_on.go). Without the verif build tag they are empty and inlined away.
+
+func verifRegister(*Store, *ModuleInstance, string) {}
+func verifUnlist(*Store, *ModuleInstance)           {}
+func verifLookup(*Store, string, *ModuleInstance)   {}
+func verifStoreClose(*Store)                        {}
+func verifRes(*ModuleInstance)                      {}
+
+// VerifPoint marks a named point between critical sections.
+func VerifPoint(string, *ModuleInstance) {}
